@@ -15,6 +15,11 @@
 //	    [fmt, inlen, outlen, panicked, err, remlen, kind].
 //	lzmareplay -mode decodeone -fmt xz -in FILE
 //	    one Decode call (watchdog confirmation).
+//	lzmareplay -mode rows -family lzma2,xzz -shards 6 -outdir DIR -wuffs ...
+//	    exhaustive-by-structure tables (payload, encoded file, decoders'
+//	    outcomes) for spec/RangeCoderRows.tla; see rows.go.
+//	lzmareplay -mode rowone -row xz:02be:256 -out row.json
+//	    one such row again, alone.
 //
 // This program judges nothing: it drives, records and transports.
 package main
@@ -29,6 +34,7 @@ import (
 	"os"
 	"os/exec"
 	"strings"
+	"sync"
 	"time"
 
 	"github.com/google/wuffs/lib/litonlylzma"
@@ -49,6 +55,7 @@ var (
 	inPath  = flag.String("in", "", "")
 	dump    = flag.String("dump", "", "")
 	hangDir = flag.String("hangdir", "", "directory for inputs that trip the watchdog")
+	extra   = flag.String("extra", "", "mode traces: additional payloads class@plen,... (spec-directed payloads, class hex:<bytes>)")
 )
 
 func ff(name string) litonlylzma.FileFormat {
@@ -136,8 +143,7 @@ func maxRun(b []byte, c byte) int {
 }
 
 // oneTrace encodes one payload, walks the output and asks the decoders.
-func oneTrace(id int, fm, cls string, n int, ps int64, w *bufio.Writer) traceInfo {
-	x := makePayload(cls, n, ps)
+func oneTrace(id int, fm, cls string, n int, ps int64, x []byte, w *bytes.Buffer) traceInfo {
 	info := traceInfo{ID: id, Fmt: fm, Class: cls, Plen: n, Pseed: ps}
 	enc, err, pan := safeEncode(ff(fm), x)
 	emit := func(e event) {
@@ -196,31 +202,41 @@ func oneTrace(id int, fm, cls string, n int, ps int64, w *bufio.Writer) traceInf
 		rt = "mismatch"
 	}
 	xzst := "xz_unavailable"
-	if _, e := os.Stat(*xzPath); e == nil {
-		o, ok, se := runTool(*xzPath, []string{"-dc", "--format=" + fm}, enc)
-		switch {
-		case !ok:
-			xzst = "rejected"
-			info.Detail += " xz: " + se
-		case !bytes.Equal(o, x):
-			xzst = "mismatch"
-		default:
-			xzst = "ok"
-		}
-	}
 	wst, wleft := "ok", 0
-	{
+	xzDetail, wDetail := "", ""
+	var wg sync.WaitGroup
+	if _, e := os.Stat(*xzPath); e == nil {
+		wg.Add(1)
+		go func() {
+			defer wg.Done()
+			o, ok, se := runTool(*xzPath, []string{"-dc", "--format=" + fm}, enc)
+			switch {
+			case !ok:
+				xzst = "rejected"
+				xzDetail = " xz: " + se
+			case !bytes.Equal(o, x):
+				xzst = "mismatch"
+			default:
+				xzst = "ok"
+			}
+		}()
+	}
+	wg.Add(1)
+	go func() {
+		defer wg.Done()
 		o, ok, se := runTool(*wuffs, []string{fm}, enc)
 		// the driver prints "status=<msg> left=<n>" on stderr
 		fmt.Sscanf(lastField(se, "left="), "%d", &wleft)
 		switch {
 		case !ok:
 			wst = "rejected"
-			info.Detail += " wuffs: " + se
+			wDetail = " wuffs: " + se
 		case !bytes.Equal(o, x):
 			wst = "mismatch"
 		}
-	}
+	}()
+	wg.Wait()
+	info.Detail += xzDetail + wDetail
 	emit(event{"ev": "eof", "off": len(enc), "len": 0, "rt": rt, "rem": len(r.rem), "xz": xzst, "wuffs": wst, "wleft": wleft})
 	return info
 }
@@ -318,6 +334,72 @@ func plans(thorough bool, rng *rand.Rand) []tracePlan {
 		s := rng.Int63n(1 << 30)
 		ps = append(ps, tracePlan{"chain", n, s}, tracePlan{"chaincarry", n, s})
 	}
+	ps = append(ps, flipPlans(thorough, rng)...)
+	return ps
+}
+
+// lastChunkIsLZMA: what the walker sees as the control byte of the last
+// LZMA2 chunk of enc.
+func lastChunkIsLZMA(enc, payload []byte) (lz bool, found bool) {
+	for _, e := range walkXz(enc, payload) {
+		if e["ev"] == "chunk" {
+			lz, found = e["ctrl"].(int) >= 0x80, true
+		}
+	}
+	return
+}
+
+// flipPlans: boundary-directed payloads for the chunk-choice rule.  For a last
+// chunk of length L whose first N bytes are pseudo-random and the rest zero,
+// bisect on N for the point where the encoder's choice flips from an LZMA
+// chunk to an uncompressed one (as seen by the walker), then plan EVERY N
+// within the window around it.  Around that point the range-coded form is as
+// long as the chunk itself: for L = 65536 it straddles the 16-bit packed-size
+// field (XzLayout!ChunkCMax).
+func flipPlans(thorough bool, rng *rand.Rand) []tracePlan {
+	type cfg struct {
+		pre    string // "rz" single chunk, "trz" second chunk after 64 KiB of text
+		l      int    // length of the last chunk
+		seeds  int
+		window int
+	}
+	cfgs := []cfg{{"rz", 65536, 2, 24}, {"trz", 65536, 1, 24}, {"rz", 4096, 1, 8}}
+	if thorough {
+		cfgs = []cfg{{"rz", 65536, 2, 24}, {"trz", 65536, 2, 24}, {"rz", 4096, 2, 24}, {"rz", 65535, 2, 24}, {"rz", 300, 2, 24}, {"trz", 20000, 1, 24}}
+	}
+	ps := []tracePlan{}
+	for _, c := range cfgs {
+		for k := 0; k < c.seeds; k++ {
+			s := rng.Int63n(1 << 30)
+			total := c.l
+			if c.pre == "trz" {
+				total += 65536
+			}
+			isLZ := func(n int) bool {
+				x := makePayload(fmt.Sprintf("%s:%d", c.pre, n), total, s)
+				enc, _, _ := safeEncode(ff("xz"), x)
+				lz, _ := lastChunkIsLZMA(enc, x)
+				return lz
+			}
+			if !isLZ(0) || isLZ(c.l) {
+				continue // no flip for this length (never happens for the lengths above)
+			}
+			lo, hi := 0, c.l // isLZ(lo), !isLZ(hi)
+			for hi-lo > 1 {
+				mid := (lo + hi) / 2
+				if isLZ(mid) {
+					lo = mid
+				} else {
+					hi = mid
+				}
+			}
+			for n := hi - c.window; n <= hi+c.window; n++ {
+				if n >= 0 && n <= c.l {
+					ps = append(ps, tracePlan{fmt.Sprintf("%s:%d", c.pre, n), total, s})
+				}
+			}
+		}
+	}
 	return ps
 }
 
@@ -334,14 +416,58 @@ func main() {
 		infos := []traceInfo{}
 		model := map[string]int{}
 		if *mode == "one" {
-			infos = append(infos, oneTrace(1, *fmtFlag, *class, *plen, *pseed, w))
+			var buf bytes.Buffer
+			infos = append(infos, oneTrace(1, *fmtFlag, *class, *plen, *pseed, makePayload(*class, *plen, *pseed), &buf))
+			w.Write(buf.Bytes())
 		} else {
 			rng := rand.New(rand.NewSource(*seed))
+			all := plans(*tier == "thorough", rng)
+			for _, f := range strings.Split(*extra, ",") {
+				if i := strings.LastIndexByte(f, '@'); i > 0 {
+					n := 0
+					fmt.Sscanf(f[i+1:], "%d", &n)
+					all = append(all, tracePlan{f[:i], n, 0})
+				}
+			}
+			// Payloads are generated in order (the steering model keeps its
+			// statistics in a global); encoding, walking and the decoder
+			// processes of up to `par` traces run concurrently; events are
+			// written in trace order.
+			type job struct {
+				id int
+				fm string
+				p  tracePlan
+				x  []byte
+			}
+			const par = 6
+			jobs := []job{}
+			flush := func() {
+				bufs := make([]bytes.Buffer, len(jobs))
+				res := make([]traceInfo, len(jobs))
+				var wg sync.WaitGroup
+				for k := range jobs {
+					wg.Add(1)
+					go func(k int) {
+						defer wg.Done()
+						j := jobs[k]
+						res[k] = oneTrace(j.id, j.fm, j.p.cls, j.p.n, j.p.ps, j.x, &bufs[k])
+					}(k)
+				}
+				wg.Wait()
+				for k := range jobs {
+					w.Write(bufs[k].Bytes())
+					infos = append(infos, res[k])
+				}
+				jobs = jobs[:0]
+			}
 			id := 0
-			for _, p := range plans(*tier == "thorough", rng) {
+			for _, p := range all {
 				for _, fm := range []string{"lzma", "xz"} {
+					if fm == "lzma" && (strings.HasPrefix(p.cls, "rz:") || strings.HasPrefix(p.cls, "trz:")) {
+						continue // the chunk choice exists in the .xz format only
+					}
 					id++
-					infos = append(infos, oneTrace(id, fm, p.cls, p.n, p.ps, w))
+					x := makePayload(p.cls, p.n, p.ps)
 					if strings.HasPrefix(p.cls, "chain") && fm == "lzma" {
 						if lastSteer.MaxPending > model["max_pending"] {
 							model["max_pending"] = lastSteer.MaxPending
@@ -351,8 +477,13 @@ func main() {
 						}
 						model["carries"] += lastSteer.Carries
 					}
+					jobs = append(jobs, job{id, fm, p, x})
+					if len(jobs) == par {
+						flush()
+					}
 				}
 			}
+			flush()
 		}
 		w.Flush()
 		f.Close()
@@ -364,6 +495,10 @@ func main() {
 		}
 	case "total":
 		totality()
+	case "rows":
+		rowsMode()
+	case "rowone":
+		rowOne()
 	case "decodeone":
 		in, err := os.ReadFile(*inPath)
 		if err != nil {
